@@ -5,7 +5,7 @@ NAMES="$@"; [ -z "$NAMES" ] && NAMES=$(ls seeded | grep -v RESULTS)
 echo "| seeded change | property | check exit | verdict line |" > /tmp/_res.md; echo "|---|---|---|---|" >> /tmp/_res.md
 for N in $NAMES; do
   P=${N%%-*}
-  git -C /repo apply seeded/$N/patch.diff 2>/dev/null || { echo "| $N | $P | - | patch does not apply to the current /repo |" >> /tmp/_res.md; continue; }
+  git -C /repo apply "$PWD/seeded/$N/patch.diff" 2>/dev/null || { echo "| $N | $P | - | patch does not apply to the current /repo |" >> /tmp/_res.md; continue; }
   OUT=$(./check $P 2>&1); RC=$?
   git -C /repo checkout -- .
   V=$(echo "$OUT" | grep -E "VIOLATION" | head -1 | sed 's|/verif/||')
